@@ -71,6 +71,10 @@ extern int vrt_cfg_membarrier;		/* 1: sys_membarrier available (private expedite
 extern int vrt_cfg_ncpus;
 extern int vrt_cfg_cpu_of[VRT_MAXT];	/* sched_getcpu() answer per thread */
 
+/* ---- fork (C16): real fork(); child = calling thread only, own trace file <trace>.child<k> ---- */
+int  vrt_fork(void);
+int  vrt_wait_child(int pid);
+
 /* ---- synthetic signals (C19) ---- */
 void vrt_set_sighandler(void (*fn)(void));	/* for the calling thread; NULL disables */
 void vrt_sig_block(int blocked);		/* model of pthread_sigmask(SIG_BLOCK all) for the calling thread */
